@@ -61,6 +61,34 @@ Fixpoint nodupb (l : list Z) : bool :=
   end.
 Definition cycle_okb (c : cycle) : bool := nodupb (enabled_addrs (fst c)).
 
+(* -- the same specification in the property's own words: a read returns the word
+      last written to that address in a strictly earlier cycle, else the initial
+      content -- *)
+Definition cycle_write_to (c : cycle) (a : Z) : option Z :=
+  match find (fun w => enabled w && (w_addr w =? a)) (fst c) with
+  | Some w => Some (w_data w)
+  | None => None
+  end.
+
+(* [past] lists the earlier cycles, most recent first *)
+Fixpoint last_write (past : list cycle) (a : Z) : option Z :=
+  match past with
+  | [] => None
+  | c :: r => match cycle_write_to c a with
+              | Some v => Some v
+              | None => last_write r a
+              end
+  end.
+
+Definition word_at (A0 : array) (past : list cycle) (a : Z) : Z :=
+  match last_write past a with Some v => v | None => A0 a end.
+
+Fixpoint hist_reads (A0 : array) (past h : list cycle) : list (list Z) :=
+  match h with
+  | [] => []
+  | c :: r => map (word_at A0 past) (snd c) :: hist_reads A0 (c :: past) r
+  end.
+
 (* ------------------------------------------------------------------ *)
 (** * Generic state machines over cycles                                *)
 
@@ -204,10 +232,14 @@ Definition hm_insert (h : hmap) (k : Z) (v : V) : hmap :=
   let pos := hm_pos h k in
   set_nth pos h (chain_insert (nth pos h []) k v).
 
+(* the `while (temp)` loop of lookup *)
+Definition hm_find (h : hmap) (k : Z) : option V :=
+  kassoc (nth (hm_pos h k) h []) k.
+
 Definition hm_lookup (h : hmap) (k : Z) : V :=
-  match kassoc (nth (hm_pos h k) h []) k with
+  match hm_find h k with
   | Some v => v
-  | None => dfl
+  | None => dfl                       (* return h->default_value *)
   end.
 
 (* all bindings, bucket by bucket *)
@@ -252,8 +284,7 @@ Definition c_write (nl : nat) (h : cmap) (w : wport) : cmap :=
 
 (* initialize_mems: create_hash_map(256, limbs) then one insert per map item *)
 Definition c_init (nl : nat) (size : nat) (init : list (Z * Z)) : cmap :=
-  fold_left (fun h kv => hm_insert c_hash h (c_key (fst kv)) (split_limbs nl (snd kv)))
-            init (hm_create size).
+  fold_left (c_write nl) (map (fun kv => (fst kv, snd kv, 1)) init) (hm_create size).
 
 Definition comp_mem_step (nl : nat) := mach_step (c_lookup nl) (c_write nl).
 Definition comp_mem_run (nl : nat) := mach_run (c_lookup nl) (c_write nl).
